@@ -7,21 +7,26 @@ namespace PolyVerif
 
 abbrev Str := List Char
 
-def escapeChars : List Char → List Char
-  | [] => []
-  | '\\' :: cs => '\\' :: '\\' :: escapeChars cs
-  | '\n' :: cs => '\\' :: 'n' :: escapeChars cs
-  | '\t' :: cs => '\\' :: 't' :: escapeChars cs
-  | '\r' :: cs => '\\' :: 'r' :: escapeChars cs
-  | c :: cs => c :: escapeChars cs
+/-- tail-recursive (fields can be millions of characters long) -/
+def escapeAux : List Char → List Char → List Char
+  | [], acc => acc.reverse
+  | '\\' :: cs, acc => escapeAux cs ('\\' :: '\\' :: acc)
+  | '\n' :: cs, acc => escapeAux cs ('n' :: '\\' :: acc)
+  | '\t' :: cs, acc => escapeAux cs ('t' :: '\\' :: acc)
+  | '\r' :: cs, acc => escapeAux cs ('r' :: '\\' :: acc)
+  | c :: cs, acc => escapeAux cs (c :: acc)
 
-def unescapeChars : List Char → List Char
-  | [] => []
-  | '\\' :: '\\' :: cs => '\\' :: unescapeChars cs
-  | '\\' :: 'n' :: cs => '\n' :: unescapeChars cs
-  | '\\' :: 't' :: cs => '\t' :: unescapeChars cs
-  | '\\' :: 'r' :: cs => '\r' :: unescapeChars cs
-  | c :: cs => c :: unescapeChars cs
+def escapeChars (cs : List Char) : List Char := escapeAux cs []
+
+def unescapeAux : List Char → List Char → List Char
+  | [], acc => acc.reverse
+  | '\\' :: '\\' :: cs, acc => unescapeAux cs ('\\' :: acc)
+  | '\\' :: 'n' :: cs, acc => unescapeAux cs ('\n' :: acc)
+  | '\\' :: 't' :: cs, acc => unescapeAux cs ('\t' :: acc)
+  | '\\' :: 'r' :: cs, acc => unescapeAux cs ('\r' :: acc)
+  | c :: cs, acc => unescapeAux cs (c :: acc)
+
+def unescapeChars (cs : List Char) : List Char := unescapeAux cs []
 
 def escape (s : String) : String := String.ofList (escapeChars s.toList)
 def unescape (s : String) : String := String.ofList (unescapeChars s.toList)
